@@ -16,6 +16,7 @@ import (
 	"fmt"
 	"math/big"
 	"sort"
+	"strings"
 	"time"
 
 	sdkmath "cosmossdk.io/math"
@@ -45,6 +46,7 @@ import (
 	ethcrypto "github.com/ethereum/go-ethereum/crypto"
 
 	"github.com/haqq-network/haqq/app"
+	v176 "github.com/haqq-network/haqq/app/upgrades/v1.7.6"
 	"github.com/haqq-network/haqq/encoding"
 	utiltx "github.com/haqq-network/haqq/testutil/tx"
 	haqqtypes "github.com/haqq-network/haqq/types"
@@ -121,6 +123,12 @@ func NewWorld(cfg GenesisCfg) *World {
 		w.Vals = append(w.Vals, ValKey{Oper: k, Cons: cons})
 		w.Names[k.Addr.String()] = fmt.Sprintf("v%d", i+1)
 	}
+	// the v1.7.6 upgrade handler processes the accounts whose address hash is on its list (mainnet accounts nobody
+	// here holds a key of): the scenario account "w176" is put on the list so that histories can run that handler
+	// on an account with delegations (key of the list: upper-case hex SHA-256 of the lower-case 0x address)
+	wk := DetKey(cfg.Seed, "w176")
+	wh := sha256.Sum256([]byte(strings.ToLower(common.BytesToAddress(wk.Addr.Bytes()).Hex())))
+	v176.WhiteListedAccounts[strings.ToUpper(hex.EncodeToString(wh[:]))] = true
 	return w
 }
 
